@@ -173,11 +173,21 @@ def run(case):
         conv = lambda v: int(v * f) if float(v * f).is_integer() else (_ for _ in ()).throw(ValueError("off grid"))
         return {"obs": [[conv(v) for v in row] for row in np.asarray(r).reshape(len(x), len(y)).tolist()]}
     if k == "prop":
-        try:
-            r = h.propagate_constraints([tuple(p) for p in case["cl"]], [tuple(p) for p in case["ml"]])
-            return {"obs": sorted([int(a), int(b)] for a, b in r)}
-        except ValueError:
-            return {"obs": None}
+        def call(cl, ml):
+            try:
+                return sorted([int(a), int(b)] for a, b in h.propagate_constraints(cl, ml))
+            except ValueError:
+                return None
+        obs = call([tuple(p) for p in case["cl"]], [tuple(p) for p in case["ml"]])
+        # the same constraints in other containers: lists of lists, tuples of tuples, (m, 2) index arrays
+        arr = lambda ps: np.array(ps, dtype=int).reshape((len(ps), 2))
+        for what, cl, ml in (("lists of lists", [list(p) for p in case["cl"]], [list(p) for p in case["ml"]]),
+                             ("tuples", tuple(tuple(p) for p in case["cl"]), tuple(tuple(p) for p in case["ml"])),
+                             ("must_link as an index array", [tuple(p) for p in case["cl"]], arr(case["ml"])),
+                             ("both as index arrays", arr(case["cl"]), arr(case["ml"]))):
+            got = call(cl, ml)
+            assert got == obs, "propagate_constraints with %s gives %r, with lists of tuples %r" % (what, got, obs)
+        return {"obs": obs}
     if k == "pdistf":
         from fractions import Fraction
         rs = np.random.RandomState(1000 + case["seed"])
